@@ -27,6 +27,10 @@ type ValueScenario struct {
 	// RecvErr (optional; then V is "nil"): the receiver of the Result accessors is flyt.NewErrorResult(this
 	// error value) instead of flyt.NewResult(V). An error Result holds no value, so nothing else changes.
 	RecvErr string `json:"recvErr,omitempty"`
+	// Hist (harness only): HOW the store comes to hold V under the key — by a single Set (0), or at the end of a history in which
+	// the key held a value of another kind that was read through the typed getters, then overwritten by Merge / deleted and
+	// set again / cleared and merged (1..4). The getters speak about the value the store holds NOW, whatever it held before.
+	Hist int `json:"hist,omitempty"`
 }
 
 type FamObsJ struct {
@@ -87,6 +91,8 @@ var genTargets = []genTarget{
 func (j *jobList) addValue(sc ValueScenario) {
 	s := sc
 	fillOracle(&s)
+	j.valCtr++
+	s.Hist = int(j.valCtr % 5)
 	j.jobs = append(j.jobs, job{fam: "value", sc: &s, run: func() any { return execValueScenario(&s) }})
 }
 
@@ -205,7 +211,48 @@ func execValue(sc *ValueScenario) ValueObs {
 	}
 	st := flyt.NewSharedStore()
 	st.Set("other", "x")
-	st.Set(K, v)
+	if sc.Hist == 0 {
+		st.Set(K, v)
+	} else {
+		priors := []any{[]string{"a", "b", "c"}, []int{1, 2}, 7, "text", map[string]any{"p": 1}, 2.5, true, []any{"x"}}
+		prior := priors[(sc.Hist+len(sc.V))%len(priors)]
+		readAll := func(k string) {
+			guard(func() string {
+				st.GetString(k)
+				st.GetInt(k)
+				st.GetFloat64(k)
+				st.GetBool(k)
+				st.GetSlice(k)
+				st.GetMap(k)
+				st.GetSliceOr(k, nil)
+				st.GetMapOr(k, nil)
+				st.GetStringOr(k, "")
+				st.GetIntOr(k, 0)
+				return ""
+			})
+		}
+		st.Set(K, prior)
+		st.Set(MISS, prior)
+		readAll(K)
+		readAll(MISS)
+		st.Delete(MISS)
+		switch sc.Hist {
+		case 1:
+			st.Merge(map[string]any{K: v})
+		case 2:
+			st.Delete(K)
+			st.Set(K, v)
+		case 3:
+			st.Clear()
+			st.Merge(map[string]any{K: v, "other": "x"})
+		default:
+			st.Set(K, v)
+			readAll(K)
+			st.Set(K, prior)
+			readAll(K)
+			st.Merge(map[string]any{"other": "y", K: v})
+		}
+	}
 
 	// a float32 / float64 outside the range of int: Go leaves int(v) undefined, the number is not compared
 	// (only the number: the ok flag and panics still are)
